@@ -157,11 +157,9 @@ def r34(R, tus):
     g = [vn.atom("gv[k][%d]" % c) for c in range(3)]
     want_R = [[g[i] * ih[j] for j in range(3)] for i in range(3)]
     want_H = [[ih[i] * ih[j] for j in range(3)] for i in range(3)]
-    hkey = tuple(vn.canon(want_H[i][j]) for i in range(3) for j in range(3))
-    Hinv = [[vn.atom(("inv3x3", i, j, hkey)) for j in range(3)] for i in range(3)]
+    Hinv, hkey = vn.inv3x3_atoms(want_H)
     want_UB = [[sum((want_R[i][l] * Hinv[l][j] for l in range(3)), vn.const(0)) for j in range(3)] for i in range(3)]
-    ubkey = tuple(vn.canon(want_UB[i][j]) for i in range(3) for j in range(3))
-    want_ubi = [[vn.atom(("inv3x3", i, j, ubkey)) for j in range(3)] for i in range(3)]
+    want_ubi, ubkey = vn.inv3x3_atoms(want_UB)
 
     # ---- C kernels
     kernels = [("score", "k"), ("score_and_refine", "k"), ("score_and_assign", "k"), ("refine_assigned", "k")]
